@@ -332,6 +332,29 @@ class Facts:
                             self.lambda_by_fid[sp["fid"]] = (n, sp, f)
         if data.get("unsupported"):
             raise Broken("stx met constructs outside its vocabulary: " + ", ".join(data["unsupported"][:10]))
+        self.orient_loop_conditions()
+
+    def orient_loop_conditions(self):
+        """`for (i = a; N > i; ...)` is `for (i = a; i < N; ...)`: the loop variable is put on the left of its bound test, so
+        that every reader of loop headers sees one spelling"""
+        flip = {">": "<", ">=": "<=", "<": ">", "<=": ">="}
+
+        def var_id(e):
+            while isinstance(e, dict) and e.get("k") in ("cast", "paren", "conv", "copy", "implicit") and e.get("e") is not None:
+                e = e["e"]
+            return e.get("id") if isinstance(e, dict) and e.get("k") == "var" else None
+        nodes = []
+        for f in self.functions:
+            nodes.append(f.get("body"))
+            for ini in f.get("inits", []) or []:
+                nodes.append(ini.get("init"))
+        for nd in nodes:
+            for n in walk(nd):
+                if n.get("k") == "for" and isinstance(n.get("init"), dict) and n["init"].get("k") == "decl" and isinstance(n.get("cond"), dict):
+                    c = n["cond"]
+                    if c.get("k") == "bin" and c.get("op") in flip and var_id(c.get("r")) == n["init"].get("id") and var_id(c.get("l")) != n["init"].get("id"):
+                        c["l"], c["r"] = c["r"], c["l"]
+                        c["op"] = flip[c["op"]]
 
     def classes(self, short=None):
         out = []
